@@ -407,6 +407,11 @@ def supply_helpers(unit, res):
             m = re.match(pat, msg)
             if m and m.group(1) not in names:
                 names.append(m.group(1))
+        # a converted closure / extracted method that calls `Self::h(..)` outside its impl: the helpers are the `Self::` calls
+        if re.search(r"cannot find `Self`|undeclared type `Self`|`Self` is only available", msg):
+            for m in re.finditer(r"\bSelf\s*::\s*(\w+)\s*\(", unit.text):
+                if m.group(1) not in names:
+                    names.append(m.group(1))
     if not names:
         return None
     files = list(dict.fromkeys(r["file"] for r in unit.weaver.records if r.get("file")))
@@ -447,14 +452,24 @@ def supply_helpers(unit, res):
         k = woven.find("{", woven.find(")", woven.find("fn " + n)))
         body = woven[k:woven.rfind("}") + 1]
         body = " ".join(_strip_line_comments(body).split())
+        # the sidecar's own dialect rewrites that are declared for every occurrence (count = "any", literal) also apply to the pulled-in text
+        for sp in list(unit.sc.get("fn", [])) + list(unit.sc.get("closure_fn", [])):
+            for pt in sp.get("patch", []):
+                if pt.get("count") == "any" and not pt.get("regex") and not pt.get("flex") and pt["old"] in body:
+                    body = body.replace(pt["old"], pt["new"])
         if re.search(r"\breturn\b|\?|\.await\b|\bSelf\b", body):
             del w.records[nrec:]
             return None
         if has_self:
             body = re.sub(r"\bself\b", "kvx_hs", body)
         bind = ""
+        # parameters of unsized-reference type (&str, &[T]) rely on a coercion of the argument that a tuple pattern does not perform:
+        # those bindings are left to inference
+        infer = any(re.match(r"&\s*(mut\s+)?(str\b|\[)", b) for _, b in params)
         if len(params) == 1:
             bind = "let {}: {} = {{}};".format(*params[0])
+        elif params and infer:
+            bind = "let ({}) = ({{}});".format(", ".join(a for a, _ in params))
         elif params:
             bind = "let ({}): ({}) = ({{}});".format(", ".join(a for a, _ in params), ", ".join(b for _, b in params))
         # call sites
